@@ -1,11 +1,11 @@
 (* Extraction of M-REPO + its extension (copy / move / remove / untrack) for the correspondence
    checks of C19 and C05.  ExtrOcamlBasic only. *)
 From Coq Require Import NArith List.
-From XV Require Import Base.Amap Base.Bytes Repo.Model Glob.Match Repo.Ext.
+From XV Require Import Base.Amap Base.Bytes Repo.Model Glob.Match Repo.Ext Repo.ExtReach.
 Require Import ExtrOcamlBasic.
 Extraction Language OCaml.
 Separate Extraction
   N.add N.mul N.div_eucl N.eqb N.ltb N.of_nat
   Model.init_repo Model.do_item Model.ws_read Model.obj_read Model.resolve
   Model.link_fuel Model.dget Model.iget Model.read_entry Model.cache_addr Model.digest_of Model.ws_exists Model.obj_exists
-  Ext.xinit Ext.do_xitem Ext.run_xitems Ext.as_is Ext.all_fixed Ext.select Ext.sources.
+  ExtReach.xclean Ext.xinit Ext.do_xitem Ext.run_xitems Ext.as_is Ext.all_fixed Ext.select Ext.sources.
